@@ -20,7 +20,10 @@ RULE = ("Hypothesis-generated scenarios: JSON class (12) x write configuration {
         "off then threading switched on} x "
         "initial content (absent / generated document, up to several KB) x {one mutating operation | "
         "flush of 1-3 modified buffered files by per-object exit, backend-wide exit or a "
-        "capacity-forced flush, both strategies}. For each scenario the un-crashed run is measured in "
+        "capacity-forced flush, both strategies}, plus per class scenarios whose first file has a base "
+        "name of NAME_MAX-{0,5,20,38,39,40} characters (around the point where the sibling temporary "
+        "file of the atomic mode cannot be created; a save that then FAILS is crashed at every point "
+        "too and must leave the file wholly old). For each scenario the un-crashed run is measured in "
         "a forked child (N executed library lines, M file-system events open/rename/remove/truncate, "
         "write calls and sizes) and then EVERY crash point is executed in its own forked child that "
         "dies with os._exit (no cleanup, no flushing of Python buffers): before each of the N lines "
